@@ -23,8 +23,9 @@ import (
 //   - a transaction is only ever requested from a node that announced it, and never twice from the
 //     same node;
 //   - inside one window a transaction is requested at most once;
-//   - with no node stopping, the first window asks one further announcer of every transaction that
-//     has one.
+//   - polls made while the first request is still outstanding request nothing;
+//   - with no node stopping, every window asks one further announcer of every transaction that
+//     still has one.
 func mgrPollScenario(stopMask int) func() func() []string {
 	return func() func() []string {
 		var problems []string
@@ -101,6 +102,20 @@ func mgrPollCombo(stopMask, rot int, sets []int) (problems []string, requests in
 		}
 	}
 	describe := fmt.Sprintf("[stopping nodes %03b, first-announcer rotation %d, announcer sets tx0=%03b tx1=%03b]", stopMask, rot, sets[0], sets[1])
+	// the retry timer also ticks while the first request is still outstanding: three polls inside
+	// the request window must request nothing (and must leave the waiting announcers as they are)
+	for poll := 0; poll < 3; poll++ {
+		if err := nm.RequestTxs(bg); err != nil {
+			problems = append(problems, "poll: RequestTxs returned "+err.Error()+" "+describe)
+		}
+		for i, node := range nodes {
+			for _, msg := range node.VerifTakeOutgoing() {
+				if gd, ok := msg.(*wire.MsgGetData); ok && len(gd.InvList) > 0 {
+					problems = append(problems, fmt.Sprintf("mgr-poll: %d transactions were requested from node %d while the first request was still outstanding %s", len(gd.InvList), i, describe))
+				}
+			}
+		}
+	}
 	for window := 1; window <= 3; window++ {
 		vsched.Advance(txTimeout + time.Second)
 		inWindow := [2]int{}
@@ -142,10 +157,10 @@ func mgrPollCombo(stopMask, rot int, sets []int) (problems []string, requests in
 			if inWindow[t] > 1 {
 				problems = append(problems, fmt.Sprintf("mgr-poll: transaction %d was requested %d times inside one request window (window %d) %s", t, inWindow[t], window, describe))
 			}
-			if window == 1 && stopMask == 0 && inWindow[t] == 0 {
+			if stopMask == 0 && inWindow[t] == 0 {
 				for i := 0; i < 3; i++ {
 					if announced[t][i] && !asked[t][i] {
-						problems = append(problems, fmt.Sprintf("mgr-poll: transaction %d has an announcer that was never asked (node %d) but three polls after the timeout requested it from nobody %s", t, i, describe))
+						problems = append(problems, fmt.Sprintf("mgr-poll: transaction %d has an announcer that was never asked (node %d) but the three polls of request window %d requested it from nobody %s", t, i, window, describe))
 						break
 					}
 				}
